@@ -32,7 +32,7 @@ func init() {
 	vc.Register(&vc.Check{
 		ID:    "C34",
 		Level: "exploration",
-		Rule:  "schedules: all interleavings up to the preemption bound (quick 2, thorough 3) of 2-3 threads each running a program of 1-3 lifecycle calls from {Join, Leave, Shutdown} (\"sleep\" = 1.5 s of virtual time, so that calls also start after earlier ones completed) plus an observer thread reading State() every 400 ms of virtual time, on a real Serf node with and without a known alive peer (so that the leave-broadcast wait is exercised); virtual time lets Leave's waits elapse; non-trivial = at least one non-default scheduling choice",
+		Rule:  "schedules: all interleavings up to the preemption bound (quick 3, thorough 4) of 2-3 threads each running a program of 1-3 lifecycle calls from {Join, Leave, Shutdown} (\"sleep\" = 1.5 s of virtual time, so that calls also start after earlier ones completed) plus an observer thread reading State() every 400 ms of virtual time, on a real Serf node with and without a known alive peer (so that the leave-broadcast wait is exercised); virtual time lets Leave's waits elapse; non-trivial = at least one non-default scheduling choice",
 		Assumptions: []string{
 			"inert real memberlist; a Join dial is refused by the transport (the join attempt itself is the observable effect)",
 			"'had begun before it was called' is applied in its weakest sound form: a Join called after a Leave/Shutdown returned, or after State() was observed to be past alive, must be refused",
@@ -43,9 +43,9 @@ func init() {
 }
 
 func c34run(ctx *vc.Ctx) {
-	bound := 2
+	bound := 3
 	if ctx.Thorough() {
-		bound = 3
+		bound = 4
 	}
 	// each thread runs a short program ("a;b" = a then b)
 	combos := [][]string{
